@@ -19,7 +19,7 @@ import (
 )
 
 var Spec = engine.Spec{
-	ID: "C01", Run: Run, MapOrders: true, MapOrdersQuick: []int{vmap.Alternating}, QuickBud: 6 * time.Minute, ThorBud: 30 * time.Minute,
+	ID: "C01", Run: Run, MapOrders: true, MapOrdersQuick: []int{vmap.Alternating}, QuickBud: 6 * time.Minute, ThorBud: 60 * time.Minute,
 	Technique: "explicit enumeration of document construction spaces (all graph shapes over <=3 (thorough 4) SPDX ids with ordered edge-object lists, root subsets and kind patterns; full enum sweeps; all attribute-deviation sets of size <=2 (thorough 3)) through the real writer (SPDX23JSON, 3 indents) and reader, against a set-of-triples graph model and a per-attribute comparison; second pass must change nothing",
 	Rule:      "case = one constructed document (+ indent); distinct state = canonical document key; oracle = reference triple (nodes with kind, typed triples, roots) and listed attributes equal after write->read, idempotent on a second pass",
 	Assume: []string{
